@@ -176,3 +176,33 @@ func TestAcceptKeySample(t *testing.T) {
 		t.Fatal(got)
 	}
 }
+
+func TestHandshakeRefs(t *testing.T) {
+	toks, clean := TokenList([]string{"keep-alive, Upgrade", " \tfoo "})
+	if !clean || len(toks) != 3 || !HasToken(toks, "upgrade") || HasToken(toks, "upgrad") {
+		t.Fatal(toks, clean)
+	}
+	if _, clean := TokenList([]string{"a,,b"}); clean {
+		t.Fatal("empty element must be unclean")
+	}
+	if _, clean := TokenList([]string{"upgrade; q=1"}); clean {
+		t.Fatal("junk must be unclean")
+	}
+	exts, clean := ParseExtensions([]string{`foo, permessage-deflate; client_max_window_bits; server_max_window_bits="10"`, `bar; x=y`})
+	if !clean || len(exts) != 3 || exts[1].Name != "permessage-deflate" || exts[1].Params["server_max_window_bits"] != "10" {
+		t.Fatal(exts, clean)
+	}
+	if _, clean := ParseExtensions([]string{`permessage-deflate; x="a b"`}); clean {
+		t.Fatal("quoted non-token must be unclean")
+	}
+	if ValidKey("dGhlIHNhbXBsZSBub25jZQ==") != 1 || ValidKey("dGhlIHNhbXBsZSBub25jZR==") != -1 || ValidKey("dGhlIHNhbXBsZSBub25jZQ=") != 0 || ValidKey("") != 0 {
+		t.Fatal("ValidKey")
+	}
+	r, err := ParseResponseStrict([]byte("HTTP/1.1 101 Switching Protocols\r\nUpgrade: websocket\r\nX: a b\r\n\r\nrest"))
+	if err != nil || r.Code != 101 || len(r.Names) != 2 || string(r.Rest) != "rest" || r.Get("upgrade")[0] != "websocket" {
+		t.Fatal(r, err)
+	}
+	if _, err := ParseResponseStrict([]byte("HTTP/1.1 101 X\r\nA: b\nInjected: c\r\n\r\n")); err == nil {
+		t.Fatal("bare LF accepted")
+	}
+}
